@@ -504,6 +504,12 @@ func init() {
 		if ex.locks == nil {
 			ex.locks = map[any]int{}
 		}
+		if ex.locks[lockKey(a[0])] > 0 {
+			// the mutex is held by a task that is suspended below this one (a task run nested inside
+			// a client call): this execution would block until that task resumes, which a nested
+			// run cannot do. The schedule is not realisable by nesting: the path is cut.
+			panic(pathAbort{"assume", ""})
+		}
 		ex.locks[lockKey(a[0])]++
 		return nil
 	}
